@@ -51,6 +51,7 @@ RULE = (
     "startpoint and its sensitivity is strictly between 0 and the cone size, or the cone size is a "
     "power of two / one less, or a strict endpoint subset is used. Distinct by digest."
 )
+RULE += ' Added after seeded-change rounds 4-5: pools of suffix-related names; arithmetic blocks built and edited by the caller beforehand; a ValueError is a refusal only when two generated names (orig_<x>, inv_<s>_<x>, dif_out_<s>, c0_/c1_<x>, pc_*, sat) really coincide.'
 ASSUMPTIONS = [
     "reference simulator cgv.refsim (with forced-node evaluation for 'flip n')",
     "pysat stand-in executes the library's SAT / model-count calls; it is not the oracle",
